@@ -255,6 +255,7 @@ def validate_fresh(total, res, run_kw=None, oracle_spec=None, params=None, extra
 
 
 def _main():
+    common.install_arena_cache()
     payload = json.loads(sys.stdin.read())
     sys.argv = [sys.argv[0]]
     hooks = None
